@@ -164,7 +164,7 @@ func gridIngest(emit func(Case)) {
 type gen struct{ r *vh.Rand }
 
 var namePool = []string{"a", "b", "c", "meta", "sync", "connected", "connectError", "connectedAddress",
-	"targetLeaves", "latestTimestamp", "*", ""}
+	"targetLeaves", "latestTimestamp", "serverName", "*", ""}
 
 func (g *gen) name() string {
 	r := g.r
@@ -193,7 +193,7 @@ func (g *gen) path(allowNil bool, emptyNames bool) *GPath {
 	for i := 0; i < n; i++ {
 		e := Elem{Name: g.cleanName(emptyNames)}
 		if i > 0 && p.Elems[0].Name == "meta" && i == 1 && r.Chance(2, 3) {
-			e.Name = namePool[3+r.Intn(7)]
+			e.Name = namePool[3+r.Intn(8)]
 		}
 		if r.Chance(1, 8) {
 			e.Keys = map[string]string{"k": []string{"v", "w"}[r.Intn(2)]}
@@ -205,6 +205,9 @@ func (g *gen) path(allowNil bool, emptyNames bool) *GPath {
 	}
 	if r.Chance(1, 12) {
 		p.Origin = "o2"
+	}
+	if r.Chance(1, 25) {
+		p = &GPath{Elems: names("meta", "latency", "window", "10ns", []string{"avg", "max", "min"}[r.Intn(3)])}
 	}
 	return p
 }
@@ -296,7 +299,8 @@ func (g *gen) emptyNameIngest() Case {
 func (g *gen) randomIngest() Case {
 	r := g.r
 	targets := []string{"t1", "t2"}
-	c := Case{Family: "ingest-random", Kind: "ingest", Targets: targets, NoEvent: r.Chance(1, 3)}
+	c := Case{Family: "ingest-random", Kind: "ingest", Targets: targets, NoEvent: r.Chance(1, 3),
+		SrvName: r.Chance(1, 3), Latency: r.Chance(1, 3)}
 	k := 2 + r.Intn(7)
 	ts := int64(1 + r.Intn(3))
 	var last *Noti
@@ -327,6 +331,62 @@ func (g *gen) randomIngest() Case {
 		c.Ops = append(c.Ops, Op{K: "refresh"})
 	}
 	return c
+}
+
+// ---------------------------------------------------------------------------
+// metadata leaves of a cache created with options: every registered metadata
+// path (and a few neighbours) written with every kind of value, with and
+// without a synced target that took a latency sample, then the refresh
+
+func metaOptsIngest(emit func(Case)) {
+	targets := []string{"t1", "t2"}
+	paths := [][]string{
+		{"meta", "serverName"}, {"meta", "serverName", "x"},
+		{"meta", "latency", "window", "10ns", "avg"}, {"meta", "latency", "window", "10ns", "max"},
+		{"meta", "latency", "window", "10ns", "min"}, {"meta", "latency", "window", "10ns"},
+		{"meta", "latency", "window", "2s", "avg"}, {"meta", "latency"},
+		{"meta", "targetSize"}, {"meta", "targetLeaves"}, {"meta", "latestTimestamp"},
+		{"meta", "sync"}, {"meta", "connected"}, {"meta", "connectedAddress"}, {"meta", "connectError"},
+	}
+	vals := []TV{{K: "nil"}, {K: "unset"}, {K: "str", S: "x"}, {K: "int", I: 1}, {K: "bool", B: true},
+		{K: "double", U: f64one}, {K: "leaflist", L: []TV{{K: "int", I: 1}}}}
+	i := 0
+	for _, ph := range paths {
+		for _, v := range vals {
+			for _, at := range []bool{false, true} {
+				for _, synced := range []bool{false, true} {
+					i++
+					c := Case{Family: "ingest-metaopts", Kind: "ingest", Targets: targets}
+					switch i % 4 {
+					case 0:
+						c.SrvName, c.Latency = true, true
+					case 1:
+						c.SrvName, c.Latency, c.NoEvent = true, true, true
+					case 2:
+						c.SrvName = true
+					case 3:
+						c.Latency = true
+					}
+					if synced {
+						c.Ops = append(c.Ops,
+							Op{K: "msg", N: &Noti{TS: 1, Prefix: &GPath{Target: "t1"}, Upd: []Upd{{Path: &GPath{Elems: names("meta", "sync")}, Val: TV{K: "bool", B: true}}}}},
+							Op{K: "msg", N: &Noti{TS: 2, Prefix: &GPath{Target: "t1"}, Upd: []Upd{{Path: &GPath{Elems: names("a")}, Val: TV{K: "int", I: 5}}}}})
+						if i%3 == 0 {
+							// the same value again: suppressed (no sample) when event-driven, a sample otherwise
+							c.Ops = append(c.Ops, Op{K: "msg", N: &Noti{TS: 3, Prefix: &GPath{Target: "t1"}, Upd: []Upd{{Path: &GPath{Elems: names("a")}, Val: TV{K: "int", I: 5}}}}})
+						}
+					}
+					n := &Noti{TS: 4, Prefix: &GPath{Target: "t1"}, Atomic: at, Upd: []Upd{{Path: &GPath{Elems: names(ph...)}, Val: v}}}
+					if at {
+						n.Prefix = &GPath{Target: "t1", Elems: names(ph...)}
+						n.Upd[0].Path = &GPath{Elems: names("z")}
+					}
+					c.Ops = append(c.Ops, Op{K: "msg", N: n}, Op{K: "refresh"})
+					emit(c)
+				}
+			}
+		}
+	}
 }
 
 // ---------------------------------------------------------------------------
@@ -408,7 +468,13 @@ func (g *gen) lookalikeIngest() Case {
 	r := g.r
 	pool := lookalikePool()
 	targets := []string{"t1", "t2"}
-	c := Case{Family: "ingest-lookalike", Kind: "ingest", Targets: targets, NoEvent: r.Chance(1, 2)}
+	c := Case{Family: "ingest-lookalike", Kind: "ingest", Targets: targets, NoEvent: r.Chance(1, 2),
+		SrvName: r.Chance(1, 4), Latency: r.Chance(1, 4)}
+	if c.Latency && r.Chance(2, 3) {
+		// a synced target, so that latency samples are taken
+		c.Ops = append(c.Ops, Op{K: "msg", N: &Noti{TS: 1, Prefix: &GPath{Target: "t1"},
+			Upd: []Upd{{Path: &GPath{Elems: names("meta", "sync")}, Val: TV{K: "bool", B: true}}}}})
+	}
 	paths := []*GPath{{Elems: names("a", "b")}, {Elems: names("c")}}
 	if r.Chance(1, 6) {
 		paths[1] = &GPath{Elems: names("meta", "x")}
